@@ -266,6 +266,19 @@ def parse_trace(text):
     return vals
 
 
+LIVE = set()
+
+
+def _kill_all(*_):
+    for pg in list(LIVE):
+        try:
+            os.killpg(pg, signal.SIGKILL)
+        except OSError:
+            pass
+    if _:
+        os._exit(143)
+
+
 def run_limited(cmd, timeout, mem_gb, log, env=None):
     def pre():
         os.setsid()
@@ -275,6 +288,7 @@ def run_limited(cmd, timeout, mem_gb, log, env=None):
     t0 = time.time()
     with open(log, "w") as lf:
         p = subprocess.Popen(["/usr/bin/time", "-f", "VP_MAXRSS_KB=%M"] + cmd, stdout=lf, stderr=subprocess.STDOUT, preexec_fn=pre, env=env)
+        LIVE.add(p.pid)
         try:
             rc = p.wait(timeout=timeout)
             to = False
@@ -285,6 +299,7 @@ def run_limited(cmd, timeout, mem_gb, log, env=None):
             except ProcessLookupError:
                 pass
             rc = p.wait()
+        LIVE.discard(p.pid)
     text = open(log, errors="replace").read()
     m = re.search(r"VP_MAXRSS_KB=(\d+)", text)
     return rc, to, time.time() - t0, int(m.group(1)) if m else 0, text
@@ -638,4 +653,13 @@ def write_evidence(pid, tier, seed, spec, recs, wall, nviol, src_hash):
 
 
 if __name__ == "__main__":
-    sys.exit(main())
+    import atexit
+    atexit.register(_kill_all)
+    signal.signal(signal.SIGTERM, _kill_all)
+    signal.signal(signal.SIGHUP, _kill_all)
+    try:
+        rc = main()
+    except KeyboardInterrupt:
+        _kill_all()
+        rc = 130
+    sys.exit(rc)
